@@ -2,6 +2,7 @@ package builder
 
 import (
 	"fmt"
+	"go/token"
 	"math/big"
 
 	"github.com/dave/jennifer/jen"
@@ -56,6 +57,15 @@ func (*Enum) Build(gen Generator, ctx *MethodContext, sourceID *xtype.JenID, sou
 			targetName = sourceName
 		}
 
+		if !enumMemberAccessible(ctx, source, sourceName) {
+			return nil, nil, NewError(fmt.Sprintf("Enum member %s of\n    %s\nis unexported and cannot be used from the output package.", sourceName, source.String)).Lift(&Path{
+				SourceType: fmtEnumValue(sourceEnum, sourceName),
+				SourceID:   sourceName,
+				Prefix:     ".",
+				TargetID:   targetName,
+				TargetType: "???",
+			})
+		}
 		sourceQual := jen.Qual(source.NamedType.Obj().Pkg().Path(), sourceName)
 		body, err := caseAction(gen, ctx, nameVar, target, targetEnum, targetName, sourceID, path)
 		if err != nil {
@@ -145,8 +155,17 @@ func caseAction(gen Generator, ctx *MethodContext, nameVar *jen.Statement, targe
 		return nil, NewError(fmt.Sprintf("Enum %s does not exist on\n    %s\n\nSee https://goverter.jmattheis.de/guide/enum", targetName, target.String))
 	}
 
+	if !enumMemberAccessible(ctx, target, targetName) {
+		return nil, NewError(fmt.Sprintf("Enum member %s of\n    %s\nis unexported and cannot be used from the output package.", targetName, target.String))
+	}
+
 	targetQual := jen.Qual(target.NamedType.Obj().Pkg().Path(), targetName)
 	return nameVar.Clone().Op("=").Add(targetQual), nil
+}
+
+// enumMemberAccessible reports whether the generated code may name the constant.
+func enumMemberAccessible(ctx *MethodContext, t *xtype.Type, member string) bool {
+	return token.IsExported(member) || t.NamedType.Obj().Pkg().Path() == ctx.OutputPackagePath
 }
 
 func executeTransformers(transformers []config.ConfiguredTransformer, source, target *xtype.Type, sourceEnum, targetEnum *xtype.Enum) (map[string]string, *Error) {
